@@ -7,6 +7,11 @@ import (
 	"github.com/koykov/byteconv"
 )
 
+const (
+	// Limit of iterations in math modifiers.
+	mathMaxIter = 1 << 16
+)
+
 func modAbs(ctx *Ctx, buf *any, val any, args []any) (err error) {
 	f, ok := floatConvAny(val, args)
 	if !ok {
@@ -151,12 +156,26 @@ func modMathRadical(ctx *Ctx, buf *any, val any, args []any) (err error) {
 	}
 
 	// Newton
+	// Iteration makes sense (and converges) only for positive value and root order from 1.
+	if !(f > 0) || !(d >= 1) || math.IsInf(f, 0) || math.IsInf(d, 0) {
+		ctx.BufF = math.NaN()
+		if f == 0 && d >= 1 {
+			ctx.BufF = 0
+		}
+		*buf = &ctx.BufF
+		return
+	}
 	root := f / d
 	rn := f
-	for math.Abs(root-rn) >= eps {
+	for c := 0; c < mathMaxIter && math.Abs(root-rn) >= eps; c++ {
 		rn = f
-		for i := 1; i < int(d); i++ {
-			rn = rn / root
+		if n := math.Trunc(d); n > mathMaxIter {
+			// Too many divisions, take the power at once.
+			rn = f / math.Pow(root, n-1)
+		} else {
+			for i := 1; i < int(d); i++ {
+				rn = rn / root
+			}
 		}
 		root = .5 * (rn + root)
 	}
@@ -196,8 +215,13 @@ func modMathFact(ctx *Ctx, buf *any, val any, args []any) (err error) {
 		return
 	}
 	r := f
-	for i := 1; i < int(d); i++ {
-		r *= f
+	if n := math.Trunc(d); n > mathMaxIter && !math.IsInf(n, 0) {
+		// Too many multiplications, take the power at once.
+		r = math.Pow(f, n)
+	} else {
+		for i := 1; i < int(d); i++ {
+			r *= f
+		}
 	}
 	ctx.BufF = r
 	*buf = &ctx.BufF
